@@ -307,18 +307,19 @@ Lemma str_step_ok start enc str op : enc_ok enc -> op_ok op -> start <= nlen str
   exists str' enc', str_step start enc str op = Ok (str', enc')
     /\ enc_ok enc' /\ start <= nlen str' /\ pre start str' = pre start str
     /\ (enc', parse_spec (suf start str')) = op_effect (enc, parse_spec (suf start str)) op
-    /\ (Forall (fun c => form_alpha c = true) (suf start str) -> Forall (fun c => form_alpha c = true) (suf start str'))
+    /\ (forall P : N -> Prop, (forall c, form_alpha c = true -> P c) -> Forall P (suf start str) -> Forall P (suf start str'))
     /\ (is_char_boundary str start = true -> is_char_boundary str' start = true).
 Proof.
   intros He Ho Hs Hb.
   assert (G : forall s' d, grows start str s' d ->
      start <= nlen s' /\ pre start s' = pre start str
      /\ parse_spec (suf start s') = parse_spec (suf start str) ++ d
-     /\ (Forall (fun c => form_alpha c = true) (suf start str) -> Forall (fun c => form_alpha c = true) (suf start s'))
+     /\ (forall P : N -> Prop, (forall c, form_alpha c = true -> P c) -> Forall P (suf start str) -> Forall P (suf start s'))
      /\ (is_char_boundary str start = true -> is_char_boundary s' start = true)).
   { intros s' d Hg. pose proof (grows_len _ _ _ _ Hg Hs) as Hl. destruct Hg as (x & -> & Hx & Hp).
     split; [exact Hl|]. split; [apply pre_app; exact Hs|]. split; [exact Hp|]. split.
-    - intros Ha. rewrite suf_app by exact Hs. apply Forall_app. tauto.
+    - intros P HP Ha. rewrite suf_app by exact Hs. apply Forall_app. split; [exact Ha|].
+      eapply Forall_impl; [|exact Hx]. exact HP.
     - apply boundary_grows; assumption. }
   destruct op as [n v|k|l|l| |o]; cbn [str_step op_effect op_ok] in *.
   - destruct Ho as [Hn Hv]. destruct (append_pair_grows str start enc n v He Hn Hv Hs) as (s' & H1 & G1).
@@ -339,7 +340,7 @@ Proof.
     split; [reflexivity|]. split; [exact He|]. split; [lia|]. split.
     { unfold pre. rewrite firstn_firstn. f_equal. lia. }
     split; [rewrite suf_nil by lia; reflexivity|]. split.
-    { intros _. rewrite suf_nil by lia. constructor. }
+    { intros P _ _. rewrite suf_nil by lia. constructor. }
     intros _. rewrite <- Hl at 2. apply boundary_at_end.
   - exists str, o. repeat split; try assumption; tauto.
 Qed.
@@ -349,7 +350,7 @@ Theorem str_run_ok ops : forall start enc str, Forall op_ok ops -> enc_ok enc ->
   exists str' enc', str_run start enc str ops = Ok (str', enc')
     /\ start <= nlen str' /\ pre start str' = pre start str
     /\ (enc', parse_spec (suf start str')) = ops_effect (enc, parse_spec (suf start str)) ops
-    /\ (Forall (fun c => form_alpha c = true) (suf start str) -> Forall (fun c => form_alpha c = true) (suf start str')).
+    /\ (forall P : N -> Prop, (forall c, form_alpha c = true -> P c) -> Forall P (suf start str) -> Forall P (suf start str')).
 Proof.
   induction ops as [|op r IH]; intros start enc str Hops He Hs Hb.
   - exists str, enc. cbn [str_run ops_effect fold_left]. repeat split; try assumption. tauto.
@@ -364,7 +365,7 @@ Proof.
     destruct (IH start e1 s1 Hr He1 Hs1 Hb3) as (s2 & e2 & H2 & Hs2 & Hp2 & Hq2 & Ha2).
     exists s2, e2. split; [exact H2|]. split; [exact Hs2|]. split; [congruence|]. split.
     + unfold ops_effect in *. cbn [fold_left]. rewrite <- Hq1. exact Hq2.
-    + tauto.
+    + intros P HP Ha. exact (Ha2 P HP (Ha1 P HP Ha)).
 Qed.
 
 (* ---------------------------------------------------------------- lifting to Serializer<T> *)
@@ -466,15 +467,16 @@ Section Generic.
     - exact I.
   Qed.
 
-  (* for_suffix(target, start) . ops . finish() *)
-  Theorem session_ok t0 start ops :
+  (* for_suffix(target, start) . ops . finish() ; the text after start_position keeps every byte property
+     P that the alphabet has (e.g. "is not '#'") *)
+  Theorem session_ok_P t0 start ops :
     Forall op_ok ops -> start <= nlen (get t0) ->
     (is_char_boundary (get t0) start = true \/ has_clear ops = false) ->
     exists str', ser_session T F get set fin t0 start ops = Ok (fin (set t0 str'))
       /\ start <= nlen str' /\ pre start str' = pre start (get t0)
       /\ parse (suf start str') = Some (snd (ops_effect (None, parse_spec (suf start (get t0))) ops))
-      /\ (Forall (fun c => form_alpha c = true) (suf start (get t0)) ->
-          Forall (fun c => form_alpha c = true) (suf start str')).
+      /\ (forall P : N -> Prop, (forall c, form_alpha c = true -> P c) ->
+          Forall P (suf start (get t0)) -> Forall P (suf start str')).
   Proof.
     intros Hops Hs Hb. unfold ser_session.
     rewrite (proj2 (for_suffix_outcome t0 start) Hs). cbn [obind].
@@ -485,5 +487,18 @@ Section Generic.
     rewrite H1. unfold lift. cbn [omap obind fst snd ser_finish ser_target].
     exists s'. split; [reflexivity|]. split; [exact H2|]. split; [exact H3|]. split; [|exact H5].
     rewrite parse_is_spec. f_equal. apply (f_equal snd) in H4. cbn [snd] in H4. exact H4.
+  Qed.
+
+  Theorem session_ok t0 start ops :
+    Forall op_ok ops -> start <= nlen (get t0) ->
+    (is_char_boundary (get t0) start = true \/ has_clear ops = false) ->
+    exists str', ser_session T F get set fin t0 start ops = Ok (fin (set t0 str'))
+      /\ start <= nlen str' /\ pre start str' = pre start (get t0)
+      /\ parse (suf start str') = Some (snd (ops_effect (None, parse_spec (suf start (get t0))) ops))
+      /\ (Forall (fun c => form_alpha c = true) (suf start (get t0)) ->
+          Forall (fun c => form_alpha c = true) (suf start str')).
+  Proof.
+    intros Hops Hs Hb. destruct (session_ok_P t0 start ops Hops Hs Hb) as (s' & H1 & H2 & H3 & H4 & H5).
+    exists s'. repeat split; try assumption. apply H5. intros c Hc; exact Hc.
   Qed.
 End Generic.
